@@ -908,6 +908,47 @@ def _site_id(row) -> str:
     return f"{row['file']}::{row['func']}::{row['kind']}::{row.get('conj', '')}{row.get('unsq', '')}|{row.get('other', '')[:40]}#{row.get('ord', 0)}"
 
 
+def _guarded(family, ret):
+    """a wrong shape / dtype / type of an implementation result IS the violation, never a tool failure: any exception that escapes
+    from a case function (i.e. raised while comparing an implementation output with its reference) becomes a failure entry with
+    the stable key `<family>/comparison-raises`; the case arguments (seed …) are the replay.
+    `ret`: how the wrapped function returns — "bad" | "bad,bucket" | "bad,note"."""
+    def deco(fn):
+        @_functools.wraps(fn)
+        def wrapped(*a, **kw):
+            try:
+                return fn(*a, **kw)
+            except Exception as e:  # noqa: BLE001
+                import traceback
+                where = traceback.extract_tb(e.__traceback__)[-1]
+                bad = [(f"{family}/comparison-raises", f"comparing an implementation result with its reference raises {err_name(e)}: {e} "
+                                                       f"(wrong shape / dtype / type of a returned tensor)"[:300], f"{where.name}:{where.lineno}")]
+                return bad if ret == "bad" else (bad, "comparison-raises") if ret == "bad,bucket" else (bad, None)
+        return wrapped
+    return deco
+
+
+def _inner_safe(C, u, v):
+    """<u, v> in float64 -> (complex | None, reason)"""
+    if not isinstance(u, torch.Tensor) or not isinstance(v, torch.Tensor):
+        return None, "not a tensor"
+    if u.shape != v.shape:
+        return None, f"shape {list(u.shape)} != {list(v.shape)}"
+    try:
+        return complex((C(u).conj() * C(v)).sum()), None
+    except Exception as e:  # noqa: BLE001
+        return None, f"{err_name(e)}: {e}"[:120]
+
+
+def _adjoint_safe(C, Ex, y, x, Ry):
+    """-> (ok, observed): exact adjointness, shape-safe (a result of the wrong shape is a failure with the shapes as observation)"""
+    lhs, why1 = _inner_safe(C, Ex, y)
+    rhs, why2 = _inner_safe(C, x, Ry)
+    if lhs is None or rhs is None:
+        return False, {"expand_result_vs_data": why1, "image_vs_reduce_result": why2}
+    return lhs == rhs, [str(lhs), str(rhs)]
+
+
 def _site_axis_case(T, row, r):
     """a call of reduce_operator / expand_operator / root_sum_of_squares whose axis argument is not the class's coil-dimension
     attribute / a `coil_dim` name: evaluate the written axis and show an input on which it differs from the declared coil axis"""
@@ -950,6 +991,7 @@ def _site_axis_case(T, row, r):
                                         f"{written}, the class declares the coil axis {coil} (differs on a {shape} input)", obs)], None
 
 
+@_guarded("callsite", "bad,note")
 def _site_eval_case(T, row, seed):
     """-> (failures [(key, what, observed)] | None when the site cannot be evaluated, note)"""
     import random
@@ -1031,6 +1073,7 @@ def _site_eval_case(T, row, seed):
 _DTYPES = {"f32": torch.float32, "f64": torch.float64, "f16": torch.float16, "i64": torch.int64}
 
 
+@_guarded("history", "bad,bucket")
 def _history_case(T, seed):
     """a short history of calls on the SAME tensors (refilled in place between rounds, as a training loop reuses buffers), in a
     random memory layout and dtype: every call must equal the native result for the values it was given, leave its arguments
@@ -1090,6 +1133,9 @@ def _history_case(T, seed):
                 for u, v in zip((S, x, y), snap):
                     u.copy_(v)
             ref = refs[name]
+            if not isinstance(out, torch.Tensor):
+                bad.append((f"history/value:{name}", f"{name} returns {type(out).__name__}, not a tensor", None))
+                continue
             o = val(out)
             if name == "root_sum_of_squares":
                 ok = o.shape == ref.shape and bool(torch.all((o - ref.sqrt()).abs() <= (2e-3 if dts == "f16" else 1e-5) * ref.sqrt().clamp(min=1.0)))
@@ -1104,12 +1150,13 @@ def _history_case(T, seed):
             kept.append((name, k, out, out.clone()))
         # exact adjointness in every round (inner products in float64)
         try:
-            lhs = complex((C(T.expand_operator(x, S, dim=da)).conj() * C(y)).sum())
-            rhs = complex((C(x).conj() * C(T.reduce_operator(y, S, dim=da))).sum())
-            if lhs != rhs:
-                bad.append(("history/adjointness", f"<E x, y> != <x, R y> in round {k} ({dts})", [str(lhs), str(rhs)]))
-        except Exception:  # noqa: BLE001  (already reported above)
-            pass
+            Ex_, Ry_ = T.expand_operator(x, S, dim=da), T.reduce_operator(y, S, dim=da)
+        except Exception:  # noqa: BLE001  (already reported above as history/raises)
+            Ex_ = Ry_ = None
+        if Ex_ is not None:
+            ok, obs = _adjoint_safe(C, Ex_, y, x, Ry_)
+            if not ok:
+                bad.append(("history/adjointness", f"<E x, y> != <x, R y> in round {k} ({dts}, coil axis {da})", obs))
     for name, k, out, clone in kept:                        # results of earlier calls are not overwritten by later ones
         if not _same(out, clone):
             bad.append((f"history/result-overwritten:{name}", f"the tensor returned by {name} in round {k} was changed by a later call", None))
@@ -1129,6 +1176,7 @@ def _history_case(T, seed):
     return bad, f"{dts}/dim{dim}" + ("/negative-dim" if neg else "") + ("/sens-singleton" if bc else "")
 
 
+@_guarded("alloc-history", "bad,bucket")
 def _alloc_history_case(T, seed):
     """call histories in which the ARGUMENT OBJECTS change identity or content in ways a cache keyed on tensor identity / version
     counter cannot see: (a) a stream of >= 20 fresh sensitivity maps of one shape, each released before the next is allocated (the
@@ -1170,16 +1218,18 @@ def _alloc_history_case(T, seed):
             except Exception as e:  # noqa: BLE001
                 bad.append((f"alloc-history/raises:{name}", f"{name} raises {err_name(e)} at step {step} of a `{mode}` history", repr(e)[:160]))
                 continue
+            if not isinstance(o, torch.Tensor):
+                bad.append((f"alloc-history/value:{name}", f"{name} returns {type(o).__name__}, not a tensor", None))
+                continue
             outs[name] = o
             if o.shape != refs[name].shape or not torch.equal(o.double(), refs[name]):
                 bad.append((f"alloc-history/value:{name}", f"{name} differs from native complex arithmetic at step {step} of a `{mode}` call "
                                                             f"history (maps of one shape {ss}; the result belongs to an EARLIER map)",
                             float((o.double() - refs[name]).abs().max()) if o.shape == refs[name].shape else list(o.shape)))
         if "reduce_operator" in outs and "expand_operator" in outs:
-            lhs = complex((C(outs["expand_operator"]).conj() * C(y)).sum())
-            rhs = complex((C(x).conj() * C(outs["reduce_operator"])).sum())
-            if lhs != rhs:
-                bad.append(("alloc-history/adjointness", f"<E x, y> != <x, R y> at step {step} of a `{mode}` call history", [str(lhs), str(rhs)]))
+            ok, obs = _adjoint_safe(C, outs["expand_operator"], y, x, outs["reduce_operator"])
+            if not ok:
+                bad.append(("alloc-history/adjointness", f"<E x, y> != <x, R y> at step {step} of a `{mode}` call history (coil axis {da})", obs))
 
     S = keep = arr = None
     for step in range(steps):
@@ -1220,6 +1270,7 @@ def _alloc_history_case(T, seed):
     return bad, mode + ("/address-reused" if reused else "") + ("/f64" if dt == torch.float64 else "")
 
 
+@_guarded("size-ladder", "bad")
 def _ladder_case(T, axis_kind, size, seed):
     """one size of the ladder on one kind of axis ("coil" | "batch" | "spatial" | "mm-inner" | "mm-rows" | "bmm-batch"), everything else
     tiny: definitions against native complex arithmetic, exact adjointness, R(E x) = rss^2 x, rss, dot product, matrix products
@@ -1268,10 +1319,11 @@ def _ladder_case(T, axis_kind, size, seed):
     da = dim - (rank + 2) if neg else dim
     Ex = chk("expand_operator", lambda: T.expand_operator(x, S, dim=da), R(C(S) * C(x).unsqueeze(dim)))
     Ry = chk("reduce_operator", lambda: T.reduce_operator(y, S, dim=da), R((C(S).conj() * C(y)).sum(dim)))
+    if Ex is not None and Ry is not None:
+        ok, obs = _adjoint_safe(C, Ex, y, x, Ry)
+        if not ok:
+            bad.append(("size-ladder/adjointness", f"<E x, y> != <x, R y> for {axis_kind} size {size} (coil axis {da})", obs))
     if Ex is not None and Ry is not None and Ex.shape == y.shape and Ry.shape == x.shape:
-        lhs, rhs = complex((C(Ex).conj() * C(y)).sum()), complex((C(x).conj() * C(Ry)).sum())
-        if lhs != rhs:
-            bad.append(("size-ladder/adjointness", f"<E x, y> != <x, R y> for {axis_kind} size {size}", [str(lhs), str(rhs)]))
         rss2 = (S.double() ** 2).sum(-1).sum(dim)
         chk("reduce∘expand", lambda: T.reduce_operator(Ex, S, dim=da), rss2.unsqueeze(-1) * x.double())
     long_ax = dim if axis_kind == "coil" else ss.index(size)
